@@ -5,6 +5,11 @@
    Encoding:  bool / int / Decimal / str   the PyMini scalars
               datetime.date(y, m, d)       PTuple [40; y; m; d]
               any other object             PTuple [41; its str()]
+              set of str / Amount / Position / Inventory   PTuple [42; PList strs] / [43; number; currency] /
+                                           [44; units; cost or None] / [45; PList positions];  NULL is None
+              a rendered cell              a str, or (InventoryRenderer with expand) a PList of str
+              RenderContext                PTuple [61; dcontext; expand; listsep; spaced; null]
+              a column renderer            PTuple [60; datatype; ctx; PList (the values update() was called with)]
               Decimal.as_tuple()           PTuple [50; sign; PTuple digits; exponent]
    Primitives, from Render.v's own string functions:
      max(a, b) on ints; str(x) = Render.py_str; date.strftime('%Y-%m-%d') = Render.date_str (this format only);
@@ -18,25 +23,61 @@ Open Scope string_scope.
 Open Scope list_scope.
 Open Scope Z_scope.
 
+Fixpoint n_map_opt {A B} (f : A -> option B) (l : list A) : option (list B) :=
+  match l with
+  | [] => Some []
+  | a :: t => match f a, n_map_opt f t with Some b, Some bs => Some (b :: bs) | _, _ => None end
+  end.
+
+Definition enc_s (s : str) : pv := PV (VStr s).
+Definition enc_amt (a : amt) : pv := PTuple [PInt 43; PV (VDec (fst a)); PV (VStr (snd a))].
+Definition enc_posn (p : posn) : pv :=
+  PTuple [PInt 44; enc_amt (p_units p); match p_cost p with None => PNone | Some c => enc_amt c end].
+
 Definition enc_rcell (c : cellv) : pv :=
   match c with
+  | CNull => PNone
   | CBool b => PBool b
   | CInt z => PInt z
   | CDec d => PV (VDec d)
   | CStr s => PV (VStr s)
   | CDate y m d => PTuple [PInt 40; PInt y; PInt m; PInt d]
   | COther s => PTuple [PInt 41; PV (VStr s)]
-  | _ => PNone
+  | CSet l => PTuple [PInt 42; PList (map enc_s l)]
+  | CAmt a => enc_amt a
+  | CPos p => enc_posn p
+  | CInv l => PTuple [PInt 45; PList (map enc_posn l)]
+  end.
+
+Definition dec_s (v : pv) : option str := match v with PV (VStr s) => Some s | _ => None end.
+Definition dec_amt (v : pv) : option amt :=
+  match v with PTuple [PV (VInt 43); PV (VDec d); PV (VStr s)] => Some (d, s) | _ => None end.
+Definition dec_posn (v : pv) : option posn :=
+  match v with
+  | PTuple [PV (VInt 44); a; c] =>
+      match dec_amt a with
+      | Some a' => match c with
+                   | PV VNull => Some (mkpos a' None)
+                   | _ => match dec_amt c with Some c' => Some (mkpos a' (Some c')) | None => None end
+                   end
+      | None => None
+      end
+  | _ => None
   end.
 
 Definition dec_rcell (v : pv) : option cellv :=
   match v with
+  | PV VNull => Some CNull
   | PV (VBool b) => Some (CBool b)
   | PV (VInt z) => Some (CInt z)
   | PV (VDec d) => Some (CDec d)
   | PV (VStr s) => Some (CStr s)
   | PTuple [PV (VInt 40); PV (VInt y); PV (VInt m); PV (VInt d)] => Some (CDate y m d)
   | PTuple [PV (VInt 41); PV (VStr s)] => Some (COther s)
+  | PTuple [PV (VInt 42); PList l] => option_map CSet (n_map_opt dec_s l)
+  | PTuple [PV (VInt 43); _; _] => option_map CAmt (dec_amt v)
+  | PTuple [PV (VInt 44); _; _] => option_map CPos (dec_posn v)
+  | PTuple [PV (VInt 45); PList l] => option_map CInv (n_map_opt dec_posn l)
   | _ => None
   end.
 
@@ -75,7 +116,10 @@ Definition prims_render (name : string) (args : list pv) : res pv :=
   if String.eqb name "builtins.max" then
     match args with [PV (VInt a); PV (VInt b)] => Ok (PInt (Z.max a b)) | _ => Stuck end
   else if String.eqb name "builtins.str" then
-    match args with [v] => match dec_rcell v with Some c => Ok (PV (VStr (py_str c))) | None => Stuck end | _ => Stuck end
+    match args with
+    | [v] => match dec_rcell v with Some c => if scalar c then Ok (PV (VStr (py_str c))) else Stuck | None => Stuck end
+    | _ => Stuck
+    end
   else if String.eqb name "call:strftime" then
     match args with
     | [PTuple [PV (VInt 40); PV (VInt y); PV (VInt m); PV (VInt d)]; PV (VStr fmt)] =>
@@ -101,3 +145,111 @@ Definition prims_render (name : string) (args : list pv) : res pv :=
   else if String.eqb name "fstr" then
     match all_strs args with Some s => Ok (PV (VStr s)) | None => Stuck end
   else Stuck.
+
+(* ================================================================== the top-level functions (render_rows, ...) *)
+Definition enc_out (c : cell) : pv := match c with One s => enc_s s | Many l => PList (map enc_s l) end.
+
+Definition dtype_code (t : dtype) : Z :=
+  match t with TObject => 0 | TBool => 1 | TStr => 2 | TSet => 3 | TDate => 4 | TInt => 5 | TDecimal => 6
+          | TAmount => 7 | TPosition => 8 | TInventory => 9 end.
+Definition enc_rdtype (t : dtype) : pv := PTuple [PInt 70; PInt (dtype_code t)].
+Definition dec_rdtype (v : pv) : option dtype :=
+  match v with
+  | PTuple [PV (VInt 70); PV (VInt k)] =>
+      if k =? 0 then Some TObject else if k =? 1 then Some TBool else if k =? 2 then Some TStr else if k =? 3 then Some TSet
+      else if k =? 4 then Some TDate else if k =? 5 then Some TInt else if k =? 6 then Some TDecimal
+      else if k =? 7 then Some TAmount else if k =? 8 then Some TPosition else if k =? 9 then Some TInventory else None
+  | _ => None
+  end.
+
+(* the options a RenderContext carries; boxed / unicode / narrow are not part of it (normalised) *)
+Definition ctx_opts (o : opts) : opts := mkopts false false (o_spaced o) (o_expand o) true (o_null o) (o_listsep o).
+Definition enc_ctx (dc : pv) (o : opts) : pv :=
+  PTuple [PInt 61; dc; PBool (o_expand o); enc_s (o_listsep o); PBool (o_spaced o); enc_s (o_null o)].
+Definition dec_ctx (v : pv) : option opts :=
+  match v with
+  | PTuple [PV (VInt 61); _; PV (VBool ex); PV (VStr sep); PV (VBool sp); PV (VStr nl)] =>
+      Some (mkopts false false sp ex true nl sep)
+  | _ => None
+  end.
+
+Definition robj (t : dtype) (ctx : pv) (vals : list cellv) : pv :=
+  PTuple [PInt 60; enc_rdtype t; ctx; PList (map enc_rcell vals)].
+Definition dec_robj (v : pv) : option (dtype * opts * list cellv) :=
+  match v with
+  | PTuple [PV (VInt 60); t; ctx; PList vals] =>
+      match dec_rdtype t, dec_ctx ctx, n_map_opt dec_rcell vals with
+      | Some t', Some o, Some vs => Some (t', o, vs)
+      | _, _, _ => None
+      end
+  | _ => None
+  end.
+
+Definition seq_of (v : pv) : option (list pv) := match v with PList l | PTuple l => Some l | _ => None end.
+
+Fixpoint zip2 (a b : list pv) : list pv :=
+  match a, b with x :: a', y :: b' => PTuple [x; y] :: zip2 a' b' | _, _ => [] end.
+
+Definition transpose (ls : list (list pv)) : list pv :=
+  match ls with
+  | [] => []
+  | c0 :: _ =>
+      let n := fold_right (fun c m => Nat.min (length c) m) (length c0) ls in
+      map (fun i => PTuple (map (fun c => nth i c PNone) ls)) (seq 0 n)
+  end.
+
+Definition as_int (v : pv) : option Z := match v with PV (VInt z) => Some z | _ => None end.
+Definition as_boolv (v : pv) : option bool := match v with PV (VBool b) => Some b | _ => None end.
+
+Section Top.
+Variable quant : dec -> str -> dec.
+Variable numfmt : list (dec * str) -> dec -> str -> str.
+
+Definition prims_top (name : string) (args : list pv) : res pv :=
+  if String.eqb name "truth" then
+    match args with [v] => bind (pv_truthy v) (fun b => Ok (PBool b)) | _ => Stuck end
+  else if String.eqb name "attr:null" then
+    match args with [PTuple [PV (VInt 61); _; _; _; _; n]] => Ok n | _ => Stuck end
+  else if String.eqb name "attr:spaced" then
+    match args with [PTuple [PV (VInt 61); _; _; _; s; _]] => Ok s | _ => Stuck end
+  else if String.eqb name "binop:mul" then
+    match args with [PList l; PV (VInt n)] => Ok (PList (concat (repeat l (Z.to_nat n)))) | _ => Stuck end
+  else if String.eqb name "builtins.zip" then
+    match args with
+    | [a; b] => match seq_of a, seq_of b with Some x, Some y => Ok (PList (zip2 x y)) | _, _ => Stuck end
+    | _ => Stuck
+    end
+  else if String.eqb name "call:format" then
+    match args with
+    | [r; v] =>
+        match dec_robj r, dec_rcell v with
+        | Some (t, o, vals), Some c => Ok (enc_out (st_format numfmt o t (col_prepare quant o t vals) c))
+        | _, _ => Stuck
+        end
+    | _ => Stuck
+    end
+  else if String.eqb name "isinstance:list" then
+    match args with [v] => Ok (PBool (match v with PList _ => true | _ => false end)) | _ => Stuck end
+  else if String.eqb name "builtins.any" then
+    match args with
+    | [PList l] => match n_map_opt as_boolv l with Some bs => Ok (PBool (existsb (fun b => b) bs)) | None => Stuck end
+    | _ => Stuck
+    end
+  else if String.eqb name "builtins.max" then
+    match args with
+    | [PV (VInt a); PV (VInt b)] => Ok (PInt (Z.max a b))
+    | [PList l] =>
+        match n_map_opt as_int l with
+        | Some (z :: zs) => Ok (PInt (fold_left Z.max zs z))
+        | Some [] => Exc ValueError
+        | None => Stuck
+        end
+    | _ => Stuck
+    end
+  else if String.eqb name "zip*" then
+    match args with
+    | [PList cs] => match n_map_opt seq_of cs with Some ls => Ok (PList (transpose ls)) | None => Stuck end
+    | _ => Stuck
+    end
+  else prims_render name args.
+End Top.
